@@ -143,7 +143,7 @@ def rule_Q1(ctx, R):
                     bad = (e, "raw `%s` is not executed inside a handle_unwind try scope: a panic in it is not turned into a kill" % e["op"])
                     continue
                 after = p.events[e["i"] + 1:]
-                after = [a for a in after if not a.get("derived")]
+                after = [a for a in after if not a.get("derived") or a["k"] == "KILL"]
                 if after and after[0]["k"] == "UNWIND_AT":
                     kinds = [a["k"] for a in after]
                     if "CAUGHT" not in kinds or not any(a["k"] == "KILL" and (owner is None or a["recv"] == owner) for a in after):
